@@ -444,7 +444,8 @@ def run(prop, tier):
                     'obs': {'steps': o['steps'], 'final': o['final']}}
                    for i, (j, o) in enumerate(zip(jobs, obs))]
         verdicts, st = validate_records(records, module='IsolationTrace.tla',
-                                        cfg='IsolationTrace.cfg', unfixed=unfixed)
+                                        cfg='IsolationTrace.cfg', unfixed=unfixed,
+                                        timeout=900 if tier == 'quick' else 3600)
         res.add_tlc(st)
     except tlc.TlcError as e:
         res.machinery_errors.append(str(e))
